@@ -264,6 +264,13 @@ impl Log {
         g.push(Event { id, t_us, ev });
         (id, r)
     }
+    /// Replace the result of an already logged `Listen` event (used by `open_and_listen`, whose
+    /// bind happens at the call but whose result is known only after the awaited open).
+    pub fn set_listen_result(&self, id: usize, r: String) {
+        if let Some(Event { ev: Ev::Listen { result, .. }, .. }) = self.events.lock().unwrap().get_mut(id) {
+            *result = r;
+        }
+    }
     pub fn len(&self) -> usize {
         self.events.lock().unwrap().len()
     }
@@ -744,6 +751,8 @@ pub async fn perform(ctx: &Ctx, kind: &ActionKind) {
                 return;
             };
             let eps = Endpoints::new(local.endpoint(), remote.endpoint());
+            // the bind of open_and_listen takes effect now, its result is known after the await
+            let listen_id = if *listen { Some(ctx.log.push(Ev::Listen { machine: m, app: a, ep: *local, result: "pending".into() })) } else { None };
             let (session, result): (Option<Arc<dyn Session>>, String) = if *listen {
                 match udp.open_and_listen(ctx.id, eps, ctx.machine.clone()).await {
                     Ok(s) => (Some(s), "ok".into()),
@@ -755,10 +764,10 @@ pub async fn perform(ctx: &Ctx, kind: &ActionKind) {
                     Err(e) => (None, fmt_err::<_>(&Err::<(), _>(e))),
                 }
             };
-            if *listen {
+            if let Some(id) = listen_id {
                 // the listen half of open_and_listen, for binding bookkeeping
                 let lr = if result == "ok" || !result.starts_with("err:Listen") { "ok".to_string() } else { result.clone() };
-                ctx.log.push(Ev::Listen { machine: m, app: a, ep: *local, result: lr });
+                ctx.log.set_listen_result(id, lr);
             }
             ctx.log.push(Ev::Open { machine: m, app: a, act, local: *local, remote: *remote, listen: *listen, result });
             if let Some(s) = session {
@@ -880,7 +889,10 @@ impl Protocol for Quiesce {
                 stable = 0;
                 last = n;
             }
-            if stable >= self.stable_ms {
+            // every frame an application handed down successfully has entered its network
+            let handed = self.log.count(|e| matches!(e, Ev::Sent { result, .. } | Ev::PciSend { result, .. } | Ev::Echo { result, .. } if result == "ok"));
+            let on_wire = self.log.count(|e| matches!(e, Ev::Wire { to: None, .. }));
+            if stable >= self.stable_ms && on_wire >= handed {
                 shutdown.shut_down();
                 return Ok(());
             }
